@@ -19,7 +19,7 @@
    doubles to be finite, and state the class invariants checked by is_valid().
    Nothing but statements lives in this file. *)
 From Coq Require Import ZArith List Bool Lia Sorted.
-From VV Require Import Serial.SerialDefs Serial.CodecProofs Serial.SerialProofs Serial.SerialExtraProofs.
+From VV Require Import Serial.SerialDefs Serial.CodecProofs Serial.SerialProofs Serial.LoopProofs Serial.OrderProofs Serial.SerialExtraProofs.
 Import ListNotations.
 Local Open Scope Z_scope.
 
@@ -74,11 +74,16 @@ Theorem C11_population_roundtrip : forall (I : Type) isave iload (idflt : I) ino
 Proof. exact pop_rt. Qed.
 Print Assumptions C11_population_roundtrip.
 
+(* [eread]/[ewf]: the reader of the elapsed time and the range it covers
+   (read_i32 / is_i32 for the `int ms` of the pinned summary::load, read_i64 /
+   is_i64 once it is read with the width it is saved with) *)
 Theorem C11_summary_roundtrip : forall show17 read_f, float_text_ok show17 read_f -> blank_fails read_f ->
   forall (I : Type) isave iload (idflt : I) inorm (wfI : I -> Prop),
   (forall x, wfI x -> rt_spec isave iload inorm x) ->
-  forall isempty x, wf_summary I idflt wfI isempty x ->
-  rt_spec (summary_save show17 I isave isempty) (summary_load read_f I iload idflt) (sum_norm I inorm isempty) x.
+  forall isempty eread (ewf : Z -> Prop),
+  (forall n pre r, ewf n -> all_ws pre -> nds r -> eread (pre ++ show_i n ++ r) = Some (n, r)) ->
+  forall x, wf_summary I idflt wfI isempty ewf x ->
+  rt_spec (summary_save show17 I isave isempty) (summary_load read_f I iload idflt eread) (sum_norm I inorm isempty) x.
 Proof. exact summary_rt. Qed.
 Print Assumptions C11_summary_roundtrip.
 
@@ -90,6 +95,58 @@ Print Assumptions C11_distribution_roundtrip.
 Theorem C11_matrix_roundtrip : forall m, wf_matrix m -> rt_spec matrix_save matrix_load (fun m => m) m.
 Proof. exact matrix_rt. Qed.
 Print Assumptions C11_matrix_roundtrip.
+
+(* The field orders regenerated from the C++ source on this run agree between
+   each save()/load() pair and with the order the model streams them in
+   (the numeric tail of summary is printed/parsed BY the regenerated orders;
+   C11_summary_roundtrip above is therefore a statement about them). *)
+Theorem C11_field_orders_agree : orders_agree.
+Proof. exact orders_agree_holds. Qed.
+Print Assumptions C11_field_orders_agree.
+
+(* both elapsed-time readers meet the premise of C11_summary_roundtrip *)
+Theorem C11_summary_elapsed_readers : forall n pre r, all_ws pre -> nds r ->
+  (is_i32 n -> read_i32 (pre ++ show_i n ++ r) = Some (n, r)) /\
+  (i64_min <= n <= i64_max -> read_i64 (pre ++ show_i n ++ r) = Some (n, r)).
+Proof. exact elapsed_readers. Qed.
+Print Assumptions C11_summary_elapsed_readers.
+
+(* distribution::save does not refuse a distribution with finite statistics *)
+Theorem C11_distribution_save_accepts : forall d, wf_dist d -> dist_save_ok d = true.
+Proof. exact dist_save_ok_wf. Qed.
+Print Assumptions C11_distribution_save_accepts.
+
+(* ---- the loops carry no fuel ------------------------------------------------
+   [rep p fuel n s] is how the model writes  for (i = 0; i < n; ++i) <parse one
+   element> ; the loaders call it with fuel = length of the stream.  It computes
+   exactly the fuel-free semantics [Reps] of the loop -- exhaustion of the fuel
+   never passes for a result, whatever n (2^64-1 included) -- for every parser
+   that consumes at least one byte when it succeeds, and every element parser at
+   every call site is such a parser, for EVERY behaviour of the float oracle. *)
+Theorem C11_loops_are_fuel_free : forall A (p : parser A), prog p ->
+  forall n s fuel, (length s <= fuel)%nat ->
+  Reps p n s (rep p fuel n s) /\ rep p fuel n s = rep p (length s) n s.
+Proof. exact loops_fuel_free. Qed.
+Print Assumptions C11_loops_are_fuel_free.
+
+Theorem C11_loop_semantics_deterministic : forall A (p : parser A) n s r1 r2,
+  Reps p n s r1 -> Reps p n s r2 -> r1 = r2.
+Proof. exact loop_det. Qed.
+Print Assumptions C11_loop_semantics_deterministic.
+
+Theorem C11_gene_arguments_loop_fuel_free : forall (p : parser Z) arity s,
+  Reps p (Z.of_nat arity) s (rep p arity (Z.of_nat arity) s).
+Proof. exact args_loop_fuel_free. Qed.
+Print Assumptions C11_gene_arguments_loop_fuel_free.
+
+Theorem C11_element_parsers_make_progress : forall read_f ss,
+  prog read_i32 /\ prog (rdf read_f) /\ prog (gene_parse read_f ss) /\ prog (kv_parse read_f) /\
+  prog (ind_parse mep (mep_load read_f ss) mep_default) /\
+  prog (ind_parse vec_ind ga_load vec_default) /\ prog (ind_parse vec_ind (de_load read_f) vec_default) /\
+  (forall (I : Type) iload (idflt : I), lprog iload ->
+     prog (ind_parse I iload idflt) /\ lprog (team_load I iload idflt) /\ prog (layer_parse I iload idflt)).
+Proof. exact element_parsers_prog. Qed.
+Print Assumptions C11_element_parsers_make_progress.
 
 (* a concrete tower: multi-layer populations of teams of MEP individuals *)
 Theorem C11_population_of_teams_roundtrip : forall show17 read_f, float_text_ok show17 read_f ->
